@@ -77,6 +77,22 @@ func c18Ops(e error, fresh []error) []c18Op {
 			ev, ex, p := obs.Report(e)
 			return p + ev + fmt.Sprint(len(ex), ex["error types"])
 		}},
+		{"BuildSentryReport+fill", func() string {
+			// what ReportError (and any caller, as documented) does with the
+			// event it got: the event is the caller's own object
+			return obs.S(func() string {
+				ev, ex := errors.BuildSentryReport(e)
+				if ev == nil {
+					return "null"
+				}
+				for k, v := range ex {
+					ev.Extra[k] = v
+				}
+				ev.Tags["report_type"] = "error"
+				ev.ServerName = "<redacted>"
+				return fmt.Sprint(len(ev.Extra), len(ev.Tags), ev.Tags["report_type"], ev.Extra["error types"])
+			})
+		}},
 		{"redacted %v", func() string { return obs.S(func() string { return string(redact.Sprintf("%v", e).Redact()) }) }},
 		{"accessors", func() string { return fmt.Sprint(obs.Accessors(e)) }},
 	}
